@@ -381,6 +381,21 @@ pub fn run_history<H: ArchH>(rep: &mut Report, h: &Hist, hist_id: u64, all_gens:
                             format!("iterator: {it} ; repeated unwind_frame: {manual}"), context_of(&lines, here), &ans);
                     }
                 }
+                // C10: no (address, sp, fp) state twice; sp never decreases across caller frames
+                for (i, st) in obs.states.iter().enumerate() {
+                    if i >= 1 && obs.states[..i].contains(st) && i >= 2 {
+                        add_oracle(rep, &["C10"], "walk-revisits-state",
+                            format!("state (address={:#x}, sp={:#x}, fp={:#x}) visited twice in one walk", st.0, st.1, st.2),
+                            context_of(&lines, here), &ans);
+                        break;
+                    }
+                    if i >= 2 && st.1 < obs.states[i - 1].1 {
+                        add_oracle(rep, &["C10"], "walk-sp-decreased",
+                            format!("sp decreased from {:#x} to {:#x} across a caller frame", obs.states[i - 1].1, st.1),
+                            context_of(&lines, here), &ans);
+                        break;
+                    }
+                }
                 if obs.items.iter().any(|s| s == "ra:0" || s == "ip:0" && *pc != 0) {
                     add_oracle(rep, &["C11", "C17"], "iterator-null-frame", "iterator yielded a null frame".into(), context_of(&lines, here), &ans);
                 }
@@ -406,6 +421,8 @@ pub fn run_history<H: ArchH>(rep: &mut Report, h: &Hist, hist_id: u64, all_gens:
             lines,
             impl_outs,
             cmds,
+            truth: Vec::new(),
+            truth_props: Vec::new(),
         })
     });
     let n = PENDING.with(|q| q.borrow().len());
@@ -415,11 +432,24 @@ pub fn run_history<H: ArchH>(rep: &mut Report, h: &Hist, hist_id: u64, all_gens:
 }
 
 pub struct Pending {
-    arch: String,
-    hist_id: u64,
-    lines: Vec<String>,
-    impl_outs: Vec<String>,
-    cmds: Vec<String>,
+    pub arch: String,
+    pub hist_id: u64,
+    pub lines: Vec<String>,
+    pub impl_outs: Vec<String>,
+    pub cmds: Vec<String>,
+    /// Ground truth per op (engine `scn`): what the true call chain demands as the answer
+    /// (without statistics), and the scenario group the op belongs to.
+    pub truth: Vec<Option<(String, u32, String)>>,
+    /// Properties a ground-truth failure bears on.
+    pub truth_props: Vec<String>,
+}
+
+pub fn push_pending(rep: &mut Report, p: Pending) {
+    PENDING.with(|q| q.borrow_mut().push(p));
+    let n = PENDING.with(|q| q.borrow().len());
+    if n >= 64 {
+        flush(rep);
+    }
 }
 
 thread_local! {
@@ -454,6 +484,7 @@ fn compare_history(rep: &mut Report, b: &Pending, raw_model_outs: &[String]) {
     rep.cases += lines.len() as u64 - 1;
     let mut branches: Vec<String> = Vec::new();
     let mut specs: Vec<Option<String>> = Vec::new();
+    let mut raws: Vec<Option<String>> = Vec::new();
     let model_outs: Vec<String> = raw_model_outs
         .iter()
         .cloned()
@@ -463,6 +494,8 @@ fn compare_history(rep: &mut Report, b: &Pending, raw_model_outs: &[String]) {
                 rep.count(&format!("{arch} model branch {br}"));
             }
             branches.push(br.unwrap_or_default());
+            let (a, raw) = crate::model::split_raw(&a);
+            raws.push(raw);
             let (a, spec) = crate::model::split_spec(&a);
             if spec.is_some() {
                 rep.count(&format!("{arch} in the domain of the C05 theorems"));
@@ -471,6 +504,79 @@ fn compare_history(rep: &mut Report, b: &Pending, raw_model_outs: &[String]) {
             a
         })
         .collect();
+    // Ground truth (engine `scn`): first make sure the DWARF specification confirms the
+    // generator's truth for every single step (otherwise the scenario is a generator bug, not a
+    // violation), then judge the implementation against the truth.
+    if !b.truth.is_empty() {
+        let strip = |o: &str| -> String {
+            o.split(' ')
+                .filter(|t| !t.starts_with("stats=") && !t.starts_with("t="))
+                .collect::<Vec<_>>()
+                .join(" ")
+        };
+        let mut bad_groups: std::collections::HashSet<u32> = std::collections::HashSet::new();
+        for (idx, t) in b.truth.iter().enumerate() {
+            if let Some((want, group, _)) = t {
+                if cmds[idx] == "unwind" {
+                    match &raws[idx] {
+                        Some(sp) if sp == want => {}
+                        other => {
+                            bad_groups.insert(*group);
+                            rep.count("scn generator check: truth not confirmed by the DWARF specification");
+                            if rep.notes.len() < 12 {
+                                rep.notes.push(format!("GENERATOR: truth `{want}` vs spec `{other:?}` for {}", lines[idx]));
+                            }
+                        }
+                    }
+                }
+            }
+        }
+        for (idx, t) in b.truth.iter().enumerate() {
+            if let Some((want, group, tag)) = t {
+                if bad_groups.contains(group) {
+                    continue;
+                }
+                rep.count("scn steps/walks judged against ground truth");
+                let got = strip(&impl_outs[idx]);
+                // walks are compared on the frame list only
+                let (got_c, want_c) = if cmds[idx] == "iter" {
+                    (got.split(' ').next().unwrap_or("").to_string(), want.split(' ').next().unwrap_or("").to_string())
+                } else {
+                    (got.clone(), want.clone())
+                };
+                if got_c != want_c {
+                    let props: Vec<&str> = b.truth_props.iter().map(|s| s.as_str()).collect();
+                    add_oracle(rep, &props, &format!("scn-{arch}-{}-differs-from-true-chain-{}{}", cmds[idx], branches[idx], tag),
+                        format!("the true call chain demands {want_c}"), context_of(lines, idx), &got_c);
+                }
+            }
+        }
+    }
+    // C20: an exact repeat of a call whose rule is cacheable (per the model's branch) must be
+    // counted as a hit by the implementation and must not touch section data.
+    let parse_stats = |o: &str| -> Option<Vec<u64>> {
+        let t = o.split(' ').find_map(|t| t.strip_prefix("stats="))?;
+        let v: Vec<u64> = t.split(',').filter_map(|x| u64::from_str_radix(x, 16).ok()).collect();
+        if v.len() == 4 { Some(v) } else { None }
+    };
+    let strip_id = |l: &str| -> String { l.splitn(3, ' ').nth(2).unwrap_or("").to_string() };
+    for idx in 1..lines.len() {
+        if cmds[idx] != "unwind" || cmds[idx - 1] != "unwind" || strip_id(&lines[idx]) != strip_id(&lines[idx - 1]) {
+            continue;
+        }
+        let cacheable = matches!(branches[idx - 1].as_str(), "hit" | "row-translated" | "uncovered" | "no-module" | "no-data" | "lookup-failed" | "index-failed");
+        if !cacheable {
+            continue;
+        }
+        if let (Some(a), Some(b)) = (parse_stats(&impl_outs[idx - 1]), parse_stats(&impl_outs[idx])) {
+            let touched = impl_outs[idx].contains(" t=1");
+            if b[0] != a[0] + 1 || touched {
+                add_oracle(rep, &["C20"], "repeat-of-cacheable-call-not-a-hit",
+                    format!("an immediately repeated call for an address whose rule is cacheable was not served from the cache (stats {a:?} -> {b:?}, section data touched: {touched})"),
+                    context_of(lines, idx), &impl_outs[idx]);
+            }
+        }
+    }
     // C05 / C01: the implementation against the DWARF specification, wherever the theorems'
     // hypotheses hold (decided by the Lean driver)
     for (idx, spec) in specs.iter().enumerate() {
@@ -486,7 +592,12 @@ fn compare_history(rep: &mut Report, b: &Pending, raw_model_outs: &[String]) {
                     "the row declares the return address undefined (root function) but the step does not end the walk".to_string(),
                     context_of(lines, idx), &got);
             } else if &got != expect {
-                add_oracle(rep, &["C05", "C01"], &format!("dwarf-step-differs-from-spec-{arch}-{}", branches[idx]),
+                let is_ra = lines[idx].contains(" kind=ra ");
+                let props: &[&str] = if branches[idx] == "hit" {
+                    // the row at this address says otherwise: a wrong rule was served from the cache
+                    if is_ra { &["C05", "C01", "C06", "C13"] } else { &["C05", "C01", "C06"] }
+                } else if is_ra { &["C05", "C01", "C13"] } else { &["C05", "C01"] };
+                add_oracle(rep, props, &format!("dwarf-step-differs-from-spec-{arch}-{}", branches[idx]),
                     format!("one step does not do what DWARF prescribes for the row: expected {expect}"),
                     context_of(lines, idx), &got);
             }
